@@ -6,7 +6,7 @@ package main
 //
 // ops (focus c06):
 //   kv K V                      contents of the checkpointed tree
-//   restorene BACKEND SEED SIZE THREADS
+//   restorene BACKEND SEED SIZE THREADS [pending]
 //       the destination first gets 1..3 local finalized versions whose contents are variations of
 //       the checkpointed contents (so that the trees share leaves and subtrees), the checkpoint of
 //       a LATER version is restored and finalized, then the local versions are pruned one by one;
@@ -41,7 +41,7 @@ func sameKVs(got []kv, want map[string][]byte) string {
 	return ""
 }
 
-func (c *c12Runner) runRestoreNonEmpty(backend string, seed uint64, size uint64, threads uint16, kvs []kv) {
+func (c *c12Runner) runRestoreNonEmpty(backend string, seed uint64, size uint64, threads uint16, kvs []kv, withPending bool) {
 	r := hlib.FromState(seed | 1)
 	dir := ""
 	if !strings.HasSuffix(backend, "mem") {
@@ -112,8 +112,26 @@ func (c *c12Runner) runRestoreNonEmpty(backend string, seed uint64, size uint64,
 	}
 	// source and checkpoint at a later version
 	ver := uint64(nlocal + 1 + r.Intn(3))
+	if withPending {
+		ver = uint64(nlocal + 1)
+	}
 	src := newServer("badgermem", kvs, ver)
 	defer src.close()
+	pending := false
+	if withPending && prev != nil {
+		// a non-finalized candidate of the restored version that shares nodes with the restored tree
+		// exists before the restore and is discarded by the restore's Finalize (the case the Lean
+		// model singles out: C06Restore.fresh_version_is_needed)
+		t := mkvs.NewWithRoot(nil, ndb, *prev)
+		for _, e := range kvs {
+			_ = t.Insert(ctx, e.k, e.v)
+		}
+		_ = t.Insert(ctx, []byte{0xee, 0xfe}, []byte("candidate"))
+		_, _, err := t.Commit(ctx, testNs, ver)
+		t.Close()
+		pending = err == nil
+		c.res.Count(fmt.Sprintf("restorene:pending-candidate:%v", pending))
+	}
 	cd, err := createCheckpoint(src, size, threads)
 	if err != nil {
 		c.res.Count("restorene:checkpoint-not-creatable")
@@ -175,6 +193,9 @@ func (c *c12Runner) runRestoreNonEmpty(backend string, seed uint64, size uint64,
 					if after == "restore" {
 						what = "spec-restored-root-unreadable"
 					}
+				}
+				if pending {
+					what += ":candidate-of-the-restored-version-pending:" + strings.TrimSuffix(backend, "mem")
 				}
 				c.fail("spec", what, fmt.Sprintf("%s, %d local versions, restored version %d, after %s: finalized root of version %d (not pruned): %s", backend, nlocal, ver, after, f.root.Version, d))
 				return false
@@ -251,9 +272,9 @@ func runCaseC06(lines []string, res *hlib.Result) (fails []hlib.Failure, nlines 
 		}()
 		for _, l := range lines {
 			w := strings.Fields(l)
-			if w[0] == "restorene" && len(w) == 5 {
+			if w[0] == "restorene" && len(w) >= 5 {
 				n++
-				c.runRestoreNonEmpty(w[1], uint64(atoi(w[2])), uint64(atoi(w[3])), uint16(atoi(w[4])), kvs)
+				c.runRestoreNonEmpty(w[1], uint64(atoi(w[2])), uint64(atoi(w[3])), uint16(atoi(w[4])), kvs, len(w) == 6 && w[5] == "pending")
 			}
 		}
 	}()
@@ -277,7 +298,11 @@ func genCaseC06(r *hlib.Rng, res *hlib.Result, i int) []string {
 	sizes := []int{1, 10, 50, 200, 4096, 1 << 20}
 	threads := []int{0, 0, 1, 2, 4}
 	for a := 0; a < 1+r.Intn(3); a++ {
-		lines = append(lines, fmt.Sprintf("restorene %s %d %d %d", backends[(i+a)%len(backends)], r.Next()>>12, sizes[r.Intn(len(sizes))], threads[r.Intn(len(threads))]))
+		l := fmt.Sprintf("restorene %s %d %d %d", backends[(i+a)%len(backends)], r.Next()>>12, sizes[r.Intn(len(sizes))], threads[r.Intn(len(threads))])
+		if r.Chance(1, 5) {
+			l += " pending"
+		}
+		lines = append(lines, l)
 	}
 	return lines
 }
